@@ -229,6 +229,13 @@ def check_relink_values(ctx, prog, R, eff, moved_arms):
         for f, b, s_ in field_stores(prog, pf(prog, "KeyPiece", "next")):
             if f.id == h.id:
                 link_vals.append((b, origins(prog, h, s_["rhs"].get("a", {}), at=b)))
+        if len(h.inputs) == 4:
+            # the helper's whole contract (which record is re-linked, under which hash), not only the value stored
+            from .relinkh import relink_contract
+            n += 1
+            ctx.check(relink_contract(prog, R, h) is not None, "relink", "%s:helper-contract" % h.name,
+                      "%s does not make the link held at its predecessor argument (bucket head of its hash argument when zero, else "
+                      "that record's next link, rewritten) point at its new-offset argument" % h.name, where=where(h))
         params = set()
         for b, os_ in link_vals:
             n += 1
@@ -243,13 +250,12 @@ def check_relink_values(ctx, prog, R, eff, moved_arms):
                           "%s does not pass the moved record's new offset to %s (%s)" % (fn.name, h.name, a), where=where(fn, b))
     # the predecessor of a moved record is searched under the offset the chain still holds (its old one): a search for the
     # *new* offset walks through the freed slot
-    finders = [f for f in prog.fns.values() if f.impl_self_adt == INNER and f.kind == "AssocFn" and f.impl_trait is None
-               and len(f.inputs) == 3 and f.inputs[1].endswith("semtype::HashValue") and "Piece<abyssiniandb::filedb::inner::semtype::Key>" in f.inputs[2]
-               and "Offset<" in f.output and calls_to(prog, f, target_fn=R.need("HEAD_READ")) and not calls_to(prog, f, target_fn=R.need("KEY_BYTES_AT"))]
+    from .relinkh import finders as _finders, finder_offset_arg
+    finders = [f for f in _finders(prog, R) if finder_offset_arg(f) is not None]
     for fd in finders:
         for caller, b in prog.callers().get(fd.id, []):
             t = caller.term(b)
-            a = origins(prog, caller, t["args"][2], at=b)
+            a = origins(prog, caller, t["args"][finder_offset_arg(fd)], at=b)
             n += 1
             ctx.check(bool(a) and not any(is_new_offset(caller, o) for o in a), "relink", "%s:searches-old-offset" % caller.name,
                       "%s looks for the record that links to a moved record's NEW offset (%s); nothing links to it yet, so the walk runs "
